@@ -247,6 +247,8 @@ class Check:
                 src = open(f).read()
             except OSError:
                 continue
+            src = re.sub(r"/-.*?-/", "", src, flags=re.S)
+            src = re.sub(r"--[^\n]*", "", src)
             n += re.findall(r"^\s*(?:@\[[^\]]*\]\s*)?(?:private\s+|protected\s+)?theorem\s+([^\s:({\[]+)", src, flags=re.M)
         return n
 
@@ -305,7 +307,10 @@ class Check:
         hits = self.grep_forbidden(allfiles + self._imported_files(allfiles))
         aok, thms, bad, aout = self.audit(prop_modules, bridge_modules)
         self.cov["theorems"] = [{"name": t, "module": m, "axioms": axs} for t, (m, axs) in sorted(thms.items())]
-        self.cov["obligations"] = max(len(names), len(thms))
+        # the audited theorem list (what the kernel accepted, private theorems included) is authoritative;
+        # the textual count is kept for information (it also sees theorems inside comment blocks)
+        self.cov["obligations"] = len(thms)
+        self.cov["source_theorem_count"] = len(names)
         self.cov["discharged"] = len(thms) if (aok and not hits) else max(0, len(thms) - len(bad) - len(hits))
         axset = sorted({a for _, (m, axs) in thms.items() for a in axs})
         self.cov["trusted_base"] = ["Lean 4 kernel (lake build)"] + [f"axiom {a}" for a in axset]
